@@ -1420,8 +1420,10 @@ class GroupBy:
 
         # TODO: allow a target vector
         results = parallel_map(func, arg_list)
+        # one result per non-empty group per value array (empty groups were skipped above)
+        n_results = len(results) // len(value_list)
         results_per_value = [
-            results[i * self.ngroups : (i + 1) * self.ngroups]
+            results[i * n_results : (i + 1) * n_results]
             for i in range(len(value_list))
         ]
         result_col_names = self._col_names_from_value_names(value_names)
@@ -1432,7 +1434,7 @@ class GroupBy:
         else:
             group_index = group_index[group_counts > 0]
 
-        if np.ndim(results_per_value[0][0]) == 0:
+        if n_results == 0 or np.ndim(results_per_value[0][0]) == 0:
             # safe to assume it's a scalar value function
             arrays = map(np.array, results_per_value)
             if transform:
